@@ -406,9 +406,18 @@ impl Execute for ast::Pipeline {
         // pipelines, etc.).
         if !result.is_success() && !params.suppress_errexit && !self.bang {
             if shell.traps().handles(crate::traps::TrapSignal::Err) {
-                shell
+                let handler_result = shell
                     .invoke_trap_handler(crate::traps::TrapSignal::Err, &params)
                     .await?;
+
+                // If the handler itself called `exit`, the shell exits with the status it gave.
+                if matches!(
+                    handler_result.next_control_flow,
+                    crate::ExecutionControlFlow::ExitShell
+                ) {
+                    shell.set_last_exit_status(handler_result.exit_code.into());
+                    return Ok(handler_result);
+                }
             }
         }
 
